@@ -21,7 +21,7 @@ func TestVerifC05Fragment(t *testing.T) {
 	r.Expect("frag:setBit", "frag:clearBit", "frag:bulkImport", "frag:bulkClear", "frag:importRoaring", "frag:importRoaringClear", "frag:noop-import", "frag:snapshot", "frag:reopen-with-log")
 	dir := filepath.Join(os.Getenv("VERIF_SCRATCH"), "c05frag")
 	os.MkdirAll(dir, 0o755)
-	n := r.N(1500, 200000)
+	n := r.N(1500, 60000)
 	r.Cases("frag", n, func(i int, id string, rng *vk.Rand) {
 		path := filepath.Join(dir, fmt.Sprintf("f-%d", i))
 		defer os.Remove(path)
